@@ -42,6 +42,7 @@ RULE += (' Also: plain generator functions as callables (nothing reaches the loo
 RULE += (' Also: synchronous managers whose enter value is awaitable payload / a generator.')
 RULE += (' Also: an awaitable fill value of zip_longest over several padding rounds.')
 RULE += (' Also: sources that are awaitable and asynchronously iterable (every tool but any_iter).')
+RULE += (' Also: synchronous mappings whose values are awaitable jobs handed to tools as (synchronous) iterables: no suspension, no job awaited.')
 ASSUMPTIONS = ["a loop that checks identity of every token and reply is at least as strict as any real event loop",
                "C functions called from asyncstdlib code are visible to sys.monitoring CALL events"]
 EXHAUSTIVE = {"quick": False, "thorough": False}
@@ -134,6 +135,9 @@ def cases(tier, seed, shard, nshards):
         for tool in ("map", "map2", "starmap", "filter", "takewhile", "accumulate", "reduce", "iter", "exitstack", "sync",
                      "enter_payload", "enter_generator", "zip_longest_payload_fill"):
             yield {"kind": "generator-callable", "tool": tool}
+        for tool in MAPPING_TOOLS:
+            for shape in ("dict", "mapping_class", "first_plain", "empty"):
+                yield {"kind": "mapping-argument", "tool": tool, "shape": shape}
         for flav in ("async_class", "async_gen"):
             for n in (1, 2):
                 for lock in (False, True):
@@ -1195,6 +1199,86 @@ def run_generator_callables(case, stats):
     return {"violations": viols, "evals": 1, "sigs": [("genfunc", tool)]}
 
 
+MAPPING_TOOLS = ("dict", "list", "tuple", "set", "sorted", "min", "max", "enumerate", "zip", "any", "all", "map_str", "tee",
+                 "batched", "chain", "islice", "any_iter", "sum_keys", "reduce_first", "accumulate")
+
+
+class _Registry:
+    """A mapping that is not a dict: ``keys()`` and ``__getitem__`` (a name -> job registry), iterable over its keys."""
+
+    def __init__(self, data):
+        self._data = data
+
+    def keys(self):
+        return self._data.keys()
+
+    def __getitem__(self, key):
+        return self._data[key]
+
+    def __iter__(self):
+        return iter(self._data)
+
+    def __len__(self):
+        return len(self._data)
+
+
+def run_mapping_argument(case, stats):
+    """A synchronous MAPPING (a name -> job registry whose VALUES happen to be awaitable) handed to a tool where a
+    synchronous iterable goes: whatever the tool makes of it - its keys, an error - the call has synchronous arguments
+    only, so nothing reaches the loop and none of the stored jobs is awaited."""
+    from ..tools import AwaitablePayload
+    _ensure_monitor(stats)
+    CTX.reset()
+    tool, shape = case["tool"], case["shape"]
+    data = {} if shape == "empty" else {"k1": AwaitablePayload("job-1"), "k2": AwaitablePayload("job-2"), "k3": 3}
+    if shape == "first_plain":
+        data = {"k0": 0, **data}
+    arg = _Registry(data) if shape == "mapping_class" else data
+
+    async def main():
+        if tool == "dict":
+            return await A.dict(arg)
+        if tool in ("list", "tuple", "set", "sorted", "min", "max", "any", "all"):
+            return await getattr(A, tool)(arg)
+        if tool == "enumerate":
+            return await A.list(A.enumerate(arg))
+        if tool == "zip":
+            return await A.list(A.zip(arg, arg))
+        if tool == "map_str":
+            return await A.list(A.map(str, arg))
+        if tool == "tee":
+            return [await A.list(c) for c in A.tee(arg, 2)]
+        if tool == "batched":
+            return await A.list(A.batched(arg, 2))
+        if tool == "chain":
+            return await A.list(A.chain(arg, arg))
+        if tool == "islice":
+            return await A.list(A.islice(arg, 2))
+        if tool == "any_iter":
+            return await A.list(A.any_iter(arg))
+        if tool == "sum_keys":
+            return await A.sum(arg, "")
+        if tool == "reduce_first":
+            return await A.reduce(lambda a, b: a, arg)
+        if tool == "accumulate":
+            return await A.list(A.accumulate(arg, lambda a, b: b))
+        raise ValueError(tool)
+
+    viols = []
+    coro = main()
+    try:
+        run_sync(coro)
+    except BaseException as exc:  # noqa: BLE001 - (e.g. a mapping is not a sequence of pairs: an error, not a suspension)
+        stats["mapping_arguments_refused"] += 1
+        del exc
+    stats["mapping_argument_runs"] += 1
+    if CTX.foreign or CTX.suspensions:
+        viols.append({"key": f"{tool}/suspends-with-sync-arguments",
+                      "msg": f"{tool}({shape} mapping whose values are awaitable jobs): {CTX.foreign[:2]} suspensions={CTX.suspensions}"})
+    _drain_asyncio(viols, f"mapping-argument {tool}")
+    return {"violations": viols, "evals": 1, "sigs": [("mapping-argument", tool, shape)]}
+
+
 def run_tee_pending_close(case, stats):
     """Two tasks share a tee over a suspending source; one closes the tee (aclose / leaving ``async with``) or a
     sibling child while the other's read through a child is suspended inside the source.  Whatever the library does
@@ -1277,6 +1361,8 @@ def run_case(case, stats: Counter):
         return run_generator_callables(case, stats)
     if kind == "tee-pending-close":
         return run_tee_pending_close(case, stats)
+    if kind == "mapping-argument":
+        return run_mapping_argument(case, stats)
     if kind == "pending-read-close":
         return run_pending_read_close(case, stats)
     if kind == "close-tokens":
